@@ -284,6 +284,11 @@ impl CommitKey {
         let mut powers_of_g = Vec::with_capacity(len);
 
         for chunk in bytes[u64::SIZE..].chunks_exact(G1Affine::RAW_SIZE) {
+            // The trailing byte is the infinity flag: anything but 0 or 1 is
+            // not an encoding (and would trip `subtle`'s debug assertion).
+            if chunk[G1Affine::RAW_SIZE - 1] > 1 {
+                return Err(Error::PointMalformed);
+            }
             // Safety: raw-byte chunk size is checked by `chunks_exact`.
             let point = unsafe { G1Affine::from_slice_unchecked(chunk) };
             let point_is_valid =
